@@ -153,6 +153,31 @@ for prop in [None] + R.RQ_PROPOSALS[1:]:
             break
     if bad:
         break
+# two SOP classes that both carry a role proposal, the acceptor answers only one of them (it has role settings for that one
+# only): the unanswered one gets the default roles on both sides, whichever comes first in the request
+for prop in R.RQ_PROPOSALS[1:]:
+    for ac_set in R.AC_SETTINGS:
+        for order in (0, 1):
+            if bad:
+                break
+            n += 1
+            ids = (1, 3) if order == 0 else (3, 1)
+            proposed = sorted([cx(ids[0], ABS[0], [TS[0]]), cx(ids[1], ABS[1], [TS[0]])], key=lambda c: c.context_id)
+            sup = [cx(None, ABS[0], [TS[0]], *ac_set), cx(None, ABS[1], [TS[0]])]
+            res, replies = negotiate_as_acceptor(proposed, sup, {ABS[0]: prop, ABS[1]: prop})
+            wire, reply_map = through_wire(res, replies)
+            rk = ((prop[0] or False), (prop[1] or False))
+            requested = sorted([cx(ids[0], ABS[0], [TS[0]], *rk), cx(ids[1], ABS[1], [TS[0]], *rk)], key=lambda c: c.context_id)
+            out = negotiate_as_requestor(requested, wire, reply_map)
+            a = {c.context_id: c for c in res}
+            r = {c.context_id: c for c in out}
+            desc = {"proposal for both SOP classes": prop, "acceptor role settings (first SOP class only)": ac_set,
+                    "context id of the answered SOP class": ids[0], "of the unanswered one": ids[1]}
+            for k in sorted(a):
+                if a[k].result == 0 and (k not in r or r[k].result != 0 or not (r[k].as_scu == a[k].as_scp and r[k].as_scp == a[k].as_scu)):
+                    bad = dict(input=desc, observed={"context": k, "requestor (scu,scp)": (r[k].as_scu, r[k].as_scp) if k in r else None,
+                                                     "acceptor (scu,scp)": (a[k].as_scu, a[k].as_scp)}, expected="complementary roles")
+                    break
 if bad:
     done(True, **bad)
 done(False, note=f"both sides agree on {n} negotiations carried through a real A-ASSOCIATE-AC")
